@@ -64,7 +64,7 @@ func c18() {
 	r := vk.Start("C18", "exploration")
 	rng := r.Rand("c18")
 	histories := r.Pick(400, 40000)
-	cfg := gen.RandomTreeConfig{Names: []string{"a", "b", "c"}, MaxDepth: 3, DirBias: 0.5, AbsentBias: 0.3}
+	cfg := gen.RandomTreeConfig{Names: []string{"a", "ab", "b"}, MaxDepth: 3, DirBias: 0.5, AbsentBias: 0.3}
 	var cycles, bitChecks int64
 	for h := 0; h < histories; h++ {
 		mode := laws.Modes[rng.Intn(len(laws.Modes))]
